@@ -478,6 +478,9 @@ def run(ck: Check) -> None:
     for i in range(N(700, 10000)):
         inputs.append({"files": {"main.bitproto": g.random_token_sequence(rng, idents), "b.bitproto": g.IMPORTED},
                        "main": "main.bitproto", "origin": "random token sequence"})
+    cover = g.grammar_cover()
+    cover[0]["cli"] = True
+    inputs.extend(cover)
     inputs.extend(g.directed(rng, N(240, 3000)))
     inputs.extend(g.inside_known(rng, ck.n(22, 110)))
 
@@ -498,6 +501,22 @@ def run(ck: Check) -> None:
         try:
             t0 = time.time()
             box["search"] = run_inputs(ck, inputs, limit, 100, "s")
+            # second pass: the COMMAND LINE on one input per diagnostic class seen in-process (is every
+            # ParserError / OSError class really turned into a diagnostic?)
+            firsts: Dict[str, int] = {}
+            for k, r in enumerate(box["search"]):
+                p0 = r.get("stages", {}).get("parse", {})
+                if p0.get("cls") in ("parser_error", "os_error") and "cli" not in r["stages"]:
+                    firsts.setdefault(p0.get("error", "?"), k)
+            order2 = sorted(firsts.values())
+            again = run_inputs(ck, [dict(inputs[k], cli=True) for k in order2], limit, 0, "c")
+            for k, r in zip(order2, again):
+                if "cli" in r.get("stages", {}):
+                    box["search"][k]["stages"]["cli"] = r["stages"]["cli"]
+            box["cli_classes"] = len(order2)
+            box["cover"] = run_workers("run_c09.py", [dict(kind="cover", id=0, dir=os.path.join(ck.dir, "cover"),
+                                                           inputs=cover, limit=limit)], chunk=1, timeout=600,
+                                       extra_env={"PYTHONUTF8": "1"})
             timings["search_s"] = round(time.time() - t0, 1)
             t0 = time.time()
             box["lex"] = run_workers("run_c09.py", lex_jobs, chunk=max(10, len(lex_jobs) // 32), timeout=600,
@@ -682,6 +701,27 @@ def run(ck: Check) -> None:
                                               "stage": e["stage"], "known_finding": e.get("key"),
                                               "generators": e["origins"]}
                                              for s, e in sorted(classes.items(), key=lambda kv: -kv[1]["count"])]}
+    try:
+        import ast as _ast
+        import translate_c09 as t9
+        _, tp = t9._src("compiler/bitproto/parser.py")
+        _, tg = t9._src("compiler/bitproto/grammars.py")
+        rules = t9.parse_grammar(tg)
+        want = set()
+        for n in tp.body:
+            if isinstance(n, _ast.ClassDef) and n.name == "Parser":
+                for fn in n.body:
+                    if isinstance(fn, _ast.FunctionDef) and fn.name.startswith("p_") and fn.name != "p_error":
+                        rl = [d.args[0].id for d in fn.decorator_list if isinstance(d, _ast.Call) and d.args
+                              and isinstance(d.args[0], _ast.Name)]
+                        for alt in rules.get(rl[0], ("", []))[1] if rl else []:
+                            want.add((fn.name, len(alt) + 1))
+        got = {tuple(x) for x in (box.get("cover") or [{}])[0].get("pairs", [])}
+        cov["grammar_cover"] = {"action_length_pairs_in_grammar": len(want), "exercised_by_the_cover_stream": len(want & got),
+                                "missing": sorted(want - got)[:20]}
+    except Exception as e:  # noqa
+        cov["grammar_cover"] = {"error": repr(e)}
+    cov["cli_runs_per_diagnostic_class"] = box.get("cli_classes")
     cov["timings"] = timings
     cov["unconfirmed_hangs"] = unconfirmed
     cov["tie"] = {**cov.get("tie", {}), "t2_cases": n_t2, "codes": tie_counts, "corpus": n_corpus,
